@@ -27,7 +27,7 @@ def run_in_crate(repo, scratch, stem, test_filter="", timeout=900):
         with open(os.path.join(crate, rel), "a") as fh:
             fh.write('\n#[cfg(test)]\n#[path = "%s"]\npub(crate) mod __replay_%s;\n' % (src, st))
     env = dict(os.environ, CARGO_TARGET_DIR=TARGET, CARGO_NET_OFFLINE="true", RUST_BACKTRACE="0")
-    cmd = ["cargo", "test", "--offline", "--lib", "__replay_%s::%s" % (stem, test_filter), "--", "--test-threads", "1"]
+    cmd = ["cargo", "test", "--offline", "--lib", "__replay_%s::%s" % (stem, test_filter), "--", "--test-threads", "1", "--nocapture"]
     p = subprocess.run(cmd, cwd=crate, env=env, capture_output=True, text=True, timeout=timeout)
     return p.returncode, p.stdout + p.stderr, " ".join(cmd)
 
